@@ -11,6 +11,10 @@ bcrypt library, whose checker raises for passwords longer than 72 bytes).  A gen
 Validator configuration classes: any, single user, htpasswd with many / one / NO active user (empty file, blank lines only,
 every user commented out) and reloads N users -> 0 users (-> N users); a fixed matrix runs every class on every entry path
 (9 x 7 cells, spread over the workers) before the random cases.  With proxyauth set and nobody valid every request is refused.
+Revocation histories (fixed cells first, then random): every configured htpasswd pair is accepted once by the real addon (the
+instance in the hook chain or a second ProxyAuth instance of the same process), then users are removed / get another password /
+are removed and re-added with another password / the file is swapped, the option is re-set, and the revoked pairs are presented
+again on every entry path: only the CURRENT configuration decides.
 Before the traffic the `proxyauth` option may go through a failing runtime update (bad spec, missing file) or a failing reload
 of the same htpasswd spec after the file was left malformed / deleted; the option keeps its value, so enforcement must continue.
 Presentations: valid (plain, ':' in the password, non-ASCII UTF-8, empty password, lower/upper-case scheme, several SP),
@@ -50,7 +54,7 @@ ENGINE = "sansio"
 BUDGET = {"quick": (500, 18), "thorough": (30000, 220)}
 WORKERS = {"quick": 4, "thorough": 16}
 REQUIRED = ["safety", "answer", "accept", "strip", "total", "path.regular-abs", "path.connect", "path.reverse", "path.transparent", "path.socks5", "path.upstream", "validator.single", "validator.any", "validator.htpasswd", "bcrypt.user_presented", "bcrypt.long_password",
-            "matrix.cells", "validator.class.htp-empty", "validator.class.htp-comments", "validator.class.htp-blank", "validator.class.htp-one", "option_history.reload-empty", "option_history.reload-empty-and-back",
+            "history.accepted_then_revoked", "history.revoked_pair_presented", "history.warmup_on_second_addon_instance", "history.warmup_on_chain_addon_instance", "matrix.cells", "validator.class.htp-empty", "validator.class.htp-comments", "validator.class.htp-blank", "validator.class.htp-one", "option_history.reload-empty", "option_history.reload-empty-and-back",
             "option_history.reload-malformed", "option_history.update_failed", "option.unauthenticated_chunked_body_reaches_stream_threshold", "option.oversized_body", "safety.no_upstream_connection"]
 TECHNIQUE = "runtime monitoring: sans-io conversations with the real ProxyAuth addon, reference Basic parser/validators, tag + credential search on the wire"
 RULE = (
@@ -116,7 +120,14 @@ def make_pair(r, flavour):
 # validator configuration classes (the fixed matrix runs every class on every path before the random cases)
 VCLASSES = ["any", "single", "htp-many", "htp-one", "htp-empty", "htp-comments", "htp-blank"]
 EMPTY_CLASSES = ("htp-empty", "htp-comments", "htp-blank")
-MATRIX_HISTORIES = {"reload-N-0": ("htp-many", "reload-empty"), "reload-N-0-N": ("htp-many", "reload-empty-and-back")}
+MATRIX_HISTORIES = {"reload-N-0": ("htp-many", "reload-empty"), "reload-N-0-N": ("htp-many", "reload-empty-and-back"),
+                    "revoke-user-removed": ("htp-many", "revoke-user-removed"), "revoke-password-changed": ("htp-many", "revoke-password-changed"),
+                    "revoke-readded": ("htp-many", "revoke-readded"), "revoke-file-swapped": ("htp-many", "revoke-file-swapped")}
+REVOKE_HISTORIES = ["revoke-user-removed", "revoke-password-changed", "revoke-readded", "revoke-file-swapped"]
+
+
+class ProxyAuthB(ProxyAuth):
+    """A second ProxyAuth instance in the same process (state kept on a class would be shared with the first one)."""
 
 
 def empty_htpasswd_content(r, vclass, pairs=()):
@@ -203,6 +214,10 @@ def presentation(r, kind, validator, pairs, fresh=False):
         if kind == "valid-spaces":
             sep = r.choice(["  ", "   "])
         out.update(value=f"{scheme}{sep}{b64(u + ':' + p)}", pair=(u, p))
+    elif kind == "revoked":
+        # a pair that WAS accepted before the last reload of the htpasswd file and is no longer in it
+        u, p = r.choice(validator.revoked)
+        out.update(value="Basic " + b64(u + ":" + p))
     elif kind == "wrong-pw":
         out.update(value="Basic " + b64(u + ":" + p + r.choice(["x", " ", "0"]) if r.random() < 0.5 else u + ":" + "W" + word(r, 6)), pair=None)
     elif kind == "wrong-user":
@@ -293,7 +308,7 @@ def classify(item, validator_kind, path):
     return None
 
 
-def run_case(ctx, tctx, chain, forced=None):
+def run_case(ctx, tctx, chain, forced=None, warm_instances=()):
     r = ctx.rng
     forced_hist = None
     if forced is not None:
@@ -325,7 +340,9 @@ def run_case(ctx, tctx, chain, forced=None):
     # runtime history of the proxyauth option before the traffic: failing updates (bad spec, missing file) and failing RELOADS of
     # the same htpasswd spec after the file was left malformed / removed.  options.proxyauth keeps its value (rollback), so
     # authentication stays configured and the validator in force is still the one the reference models.
-    hist = r.choice(["none", "none", "none", "bad-spec", "missing-file", "reload-malformed", "reload-malformed", "reload-deleted", "reload-empty", "reload-empty", "reload-empty-and-back"])
+    hist = r.choice(["none", "none", "none", "bad-spec", "missing-file", "reload-malformed", "reload-malformed", "reload-deleted", "reload-empty", "reload-empty", "reload-empty-and-back"] + REVOKE_HISTORIES)
+    if hist.startswith("revoke") and vclass not in ("htp-many", "htp-one"):
+        hist = "none"
     if hist.startswith("reload") and validator.kind != "htpasswd":
         hist = r.choice(["none", "bad-spec", "missing-file"])
     if hist.startswith("reload-empty") and vclass in EMPTY_CLASSES:
@@ -333,7 +350,63 @@ def run_case(ctx, tctx, chain, forced=None):
     if forced is not None:
         hist = forced_hist or "none"
     ctx.count("option_history." + hist)
-    if hist.startswith("reload-empty"):
+    revoked = []
+    if hist.startswith("revoke"):
+        # three-step history: every configured pair is ACCEPTED once (presented to the requestheaders hook of the real addon,
+        # instance A = the one in the hook chain, or a second instance B in the same process), then the operator revokes some of
+        # them (user removed / password changed / removed and later re-added with another password / another file) and
+        # re-sets the option; the conversation then presents the revoked pairs again.  Only the CURRENT configuration counts.
+        from mitmproxy.proxy import mode_specs
+        from mitmproxy.test import tflow
+
+        inst = r.choice(warm_instances)
+        for u, p in pairs:
+            f = tflow.tflow()
+            f.client_conn.proxy_mode = mode_specs.ProxyMode.parse("regular")
+            f.request.headers["Proxy-Authorization"] = "Basic " + b64(u + ":" + p)
+            inst.requestheaders(f)
+            ctx.count("history.warmup_presented")
+            if f.response is not None:
+                ctx.violation("valid-credentials-refused", {"where": "warm-up before the reload", "pair": (u, p), "status": f.response.status_code, "htpasswd_pairs": pairs}, None)
+        hp = optval[1:]
+        old = dict(pairs)
+        victims = r.sample(sorted(old), r.randint(1, max(1, len(old) // 2)))
+        new = dict(old)
+        bc = set(validator.bcrypt_users)
+
+        def write(pairs_, path_=hp):
+            with open(path_, "w", encoding="utf-8") as fh:
+                fh.write(rb.RefHtpasswd(pairs_, bc & set(pairs_), r).file_content())
+
+        if hist == "revoke-user-removed":
+            for u in victims:
+                del new[u]
+            write(new)
+            tctx.options.update(proxyauth=optval)
+        elif hist == "revoke-password-changed":
+            for u in victims:
+                new[u] = make_pair(r, r.choice(["plain", "colon"]))[1]
+            write(new)
+            tctx.options.update(proxyauth=optval)
+        elif hist == "revoke-readded":
+            write({u: p for u, p in old.items() if u not in victims})
+            tctx.options.update(proxyauth=optval)
+            for u in victims:
+                new[u] = make_pair(r, "plain")[1]
+            write(new)
+            tctx.options.update(proxyauth=optval)
+        else:  # another file takes over
+            victims = sorted(old)
+            _v2, optval, _pairs2, _ = make_validator(r, "htp-many")
+            new, bc = dict(_pairs2), set(_v2.bcrypt_users)
+            tctx.options.update(proxyauth=optval)
+        revoked = [(u, old[u]) for u in victims if new.get(u) != old[u]]
+        validator = rb.RefHtpasswd(new, bc & set(new), r)
+        validator.revoked = revoked
+        pairs = list(new.items())
+        ctx.count("history.accepted_then_revoked", len(revoked))
+        ctx.count("history.warmup_on_second_addon_instance" if inst is not warm_instances[0] else "history.warmup_on_chain_addon_instance")
+    elif hist.startswith("reload-empty"):
         # the operator revokes every user (comments them out / empties the file) and re-applies the option: the reload SUCCEEDS,
         # proxyauth stays configured, nobody is valid any more -- and, for "-and-back", restores the users and reloads again
         hp = optval[1:]
@@ -373,6 +446,8 @@ def run_case(ctx, tctx, chain, forced=None):
     proxy_hdr = "Proxy-Authorization" if fam in ("regular", "upstream") else "Authorization"
 
     def pres_kind(p_valid):
+        if revoked and r.random() < 0.45:
+            return "revoked"
         kinds = VALID_KINDS if r.random() < p_valid else BAD_KINDS
         for _ in range(8):
             k = r.choice(kinds)
@@ -400,6 +475,9 @@ def run_case(ctx, tctx, chain, forced=None):
                 u = "W" + u
             elif pk == "swapped":
                 u, p = (p or "e"), u
+        elif pk == "revoked" and any(p_ for _, p_ in revoked):
+            u, p = r.choice([x for x in revoked if x[1]])
+            pk = "socks-revoked"
         elif pk in ("long-pw", "nul-pw") and getattr(validator, "bcrypt_users", None):
             u = r.choice(sorted(validator.bcrypt_users))
             p = validator.pairs[u]
@@ -459,6 +537,8 @@ def run_case(ctx, tctx, chain, forced=None):
 
     for it in items:
         pr = it.get("pres") or {}
+        if pr.get("kind", "").endswith("revoked"):
+            ctx.count("history.revoked_pair_presented")
         if pr.get("bcrypt_user") or (it["what"] == "socks" and it["pres"]["pair"][0] in getattr(validator, "bcrypt_users", ())):
             ctx.count("bcrypt.user_presented")
             if pr.get("kind", "").endswith("long-pw"):
@@ -675,15 +755,15 @@ def run_case(ctx, tctx, chain, forced=None):
 
 
 def run(ctx):
-    tctx, addons = sansio.addon_context(ProxyAuth)
-    pa = addons[2]
+    tctx, addons = sansio.addon_context(ProxyAuth, ProxyAuthB)
+    pa, pa_b = addons[2], addons[3]
     chain = [addons[1], pa]
     keep = {k: getattr(tctx.options, k) for k in ("proxyauth", "connection_strategy", "stream_large_bodies", "body_size_limit", "store_streamed_bodies")}
     try:
         matrix = [(vc, path) for vc in VCLASSES + sorted(MATRIX_HISTORIES) for path in sorted(set(PATHS))]
         for i in ctx.cases():
             cell = i * ctx.nworkers + ctx.worker  # cell k of the fixed matrix is run by worker k % nworkers as its case k // nworkers
-            res = ctx.guard(run_case, ctx, tctx, chain, matrix[cell] if cell < len(matrix) else None, what="c20 case")
+            res = ctx.guard(run_case, ctx, tctx, chain, matrix[cell] if cell < len(matrix) else None, (pa, pa_b), what="c20 case")
             if res is None:
                 ctx.case(("aborted",), False)
                 continue
